@@ -564,12 +564,14 @@ class WriterThread(threading.Thread):
 
         elif event.kind == EventKind.DELETE:
             # delete the referenced events
-            try:
-                ids = set(
-                    (bytes_from_hex(tag[1]) for tag in event.tags if tag[0] == "e")
-                )
-            except IndexError:
-                ids = []
+            ids = set()
+            for tag in event.tags:
+                if tag[0] == "e" and len(tag) > 1:
+                    try:
+                        ids.add(bytes_from_hex(tag[1]))
+                    except (ValueError, TypeError):
+                        # not an event id: nothing to delete for this tag
+                        pass
             if not ids:
                 return
             with INDEXES["authors"].scanner(
